@@ -230,6 +230,28 @@ pub fn trained_like_dict(r: &mut Rng, alpha: &[char]) -> Vec<(String, Vec<i32>, 
     out
 }
 
+/// a tag model with more than eight scored candidates whose tag n-grams are suffix-related at the SAME relative position, the
+/// longer one with a weight vector that ends in zeros (merging the two must not lose the tail of the shorter one's weights),
+/// and a text in which the longer one occurs
+pub fn suffix_tag_case(r: &mut Rng, alpha: &[char]) -> (crate::model::AbsTagModel, String) {
+    use crate::model::{AbsTagModel, TagNgram};
+    let (t, x, f) = (alpha[0], alpha[1 % alpha.len()], alpha[alpha.len() - 1]);
+    let n_c = *r.pick(&[9usize, 10, 12, 17]);
+    let short: Vec<i32> = (0..n_c).map(|j| if j + 3 >= n_c { r.range(3, 9) as i32 } else { r.range(-2, 2) as i32 }).collect();
+    let mut long = vec![0i32; n_c];
+    long[0] = r.range(1, 4) as i32;
+    let by_type = r.chance(1, 3);
+    let ty = |c: char| vaporetto::CharacterType::get_type(c) as u8;
+    let tm = AbsTagModel {
+        token: t.to_string(),
+        tags: vec![(0..n_c).map(|j| format!("t{j}")).collect()],
+        char_ngrams: if by_type { vec![] } else { vec![TagNgram { ngram: x.to_string(), weights: vec![(1, short.clone())] }, TagNgram { ngram: format!("{t}{x}"), weights: vec![(1, long.clone())] }] },
+        type_ngrams: if by_type { vec![TagNgram { ngram: vec![ty(x)], weights: vec![(1, short)] }, TagNgram { ngram: vec![ty(t), ty(x)], weights: vec![(1, long)] }] } else { vec![] },
+        bias: (0..n_c).map(|j| (j % 3) as i32 - 1).collect(),
+    };
+    (tm, format!("{f}{t}{x}{f}"))
+}
+
 /// a second model over the same alphabet with fewer patterns and other weights (every other n-gram of `m`, signs flipped)
 pub fn thinned(m1: &crate::model::AbsModel) -> crate::model::AbsModel {
     let mut m3 = m1.clone();
@@ -312,6 +334,16 @@ pub fn gen_c06(out: &mut dyn Write, thorough: bool, seed: u64) {
             let text = format!("{}{}{}", alpha[0], token, alpha[alpha.len() - 1]);
             writeln!(out, "H {CFG} {}^1{store} Fraw:{},pred:0,setb:0:W,fill,obs:BKGIC,tspec:0 c06", mm.to_text(), hexs(&text)).unwrap();
         }
+        // more than eight candidates with suffix-related tag n-grams at one relative position
+        if r.chance(1, 12) && alpha.len() >= 2 {
+            let (tm, text) = suffix_tag_case(&mut r, &alpha);
+            let mut mm = m.clone();
+            mm.tag_models.retain(|x| x.token != tm.token);
+            mm.tag_models.push(tm);
+            let n = text.chars().count();
+            let labels: String = (0..n - 1).map(|_| 'W').collect();
+            writeln!(out, "H {CFG} {}^1{store} Fraw:{},pred:0,setbs:{labels},fill,obs:BKGIC,tspec:0 c06", mm.to_text(), hexs(&text)).unwrap();
+        }
         // a long text (positions beyond 255, many tokens)
         if r.chance(1, 60) {
             let mut text = String::new();
@@ -359,6 +391,29 @@ pub fn gen_c08(out: &mut dyn Write, thorough: bool, seed: u64) {
             continue;
         }
         let preds: Vec<vaporetto::Predictor> = built.into_iter().map(|b| b.unwrap()).collect();
+        // targeted: one predictor, the same token in different right-hand contexts, in both orders (nothing a predictor
+        // learns from one text may leak into the next); the boundary model is the bias alone, so no pattern ends anywhere
+        if group_no < (if thorough { 60 } else { 10 }) {
+            use crate::model::{AbsTagModel, TagNgram};
+            let g = *r.pick(&["c", "d", "bc", "cd"]);
+            let rel = (g.chars().count() + r.below(2)) as u8;
+            let tm = AbsTagModel {
+                token: "b".into(),
+                tags: vec![vec!["X".into(), "Y".into()], vec!["p".into()]],
+                char_ngrams: vec![TagNgram { ngram: g.to_string(), weights: vec![(rel, vec![0, r.range(2, 9) as i32])] }],
+                type_ngrams: vec![],
+                bias: vec![1, 0],
+            };
+            let m4 = AbsModel { char_w: 3, type_w: 3, bias: 1, tag_models: vec![tm], ..Default::default() };
+            let texts = ["bc", "bd", "bcd", "abdc", "bcc"];
+            for a in texts {
+                for b in texts {
+                    if a != b {
+                        writeln!(out, "H {CFG} {}^10 raw:{},pred:0,fill,raw:{},pred:0,fill,obs c08", m4.to_text(), hexs(a), hexs(b)).unwrap();
+                    }
+                }
+            }
+        }
         // targeted: an update with the SAME text as before (any "nothing changed" shortcut must still reset everything)
         for k in [0usize, 1, 4] {
             let x = gen_text_tags(&mut r, &m1, &alpha, 10);
@@ -549,7 +604,22 @@ pub fn gen_c13(out: &mut dyn Write, thorough: bool, seed: u64) {
         if with_tags {
             gen_tag_models(&mut r, &mut m, &alpha, 3);
         }
+        let mut extra_text: Option<String> = None;
+        if with_tags && i % 6 == 0 && alpha.len() >= 2 {
+            let (tm, text) = suffix_tag_case(&mut r, &alpha);
+            m.tag_models.retain(|x| x.token != tm.token);
+            m.tag_models.push(tm);
+            // the token has to come out as a token of its own: a bias that breaks everywhere, no boundary patterns
+            m.char_ngrams.clear();
+            m.type_ngrams.clear();
+            m.dict.clear();
+            m.bias = 5;
+            extra_text = Some(text);
+        }
         let mt = m.to_text();
+        if let Some(t) = &extra_text {
+            writeln!(out, "F @ {mt} 1 {}", hexs(t)).unwrap();
+        }
         for _ in 0..4 {
             let text = if with_tags { gen_text_tags(&mut r, &m, &alpha, 20) } else { gen_text(&mut r, &m, &alpha, 30) };
             writeln!(out, "F @ {mt} {} {}", if with_tags { 1 } else { 0 }, hexs(&text)).unwrap();
